@@ -124,7 +124,19 @@ def worker(wid, q, res, tmp, lock, outfh):
 
     def run(cmd, timeout=600, e=env):
         try:
-            r = subprocess.run(cmd, cwd=root, env=e, stdout=subprocess.PIPE, stderr=subprocess.STDOUT, text=True, timeout=timeout)
+            # own process group: a mutant that loops forever must die with its cargo parent when the timeout strikes
+            pr = subprocess.Popen(cmd, cwd=root, env=e, stdout=subprocess.PIPE, stderr=subprocess.STDOUT, text=True, start_new_session=True)
+            try:
+                out_, _ = pr.communicate(timeout=timeout)
+            except subprocess.TimeoutExpired:
+                import signal
+                try:
+                    os.killpg(pr.pid, signal.SIGKILL)
+                except Exception:
+                    pass
+                pr.wait()
+                raise
+            r = subprocess.CompletedProcess(cmd, pr.returncode, out_, None)
             return r.returncode, r.stdout
         except subprocess.TimeoutExpired:
             return 124, "timeout"
